@@ -1,4 +1,5 @@
 import OcVerif.Proofs.Pool
+import OcVerif.Model.CancelSignal
 /-!
 # C13 — cancelling a task affects only that task
 -/
@@ -94,5 +95,119 @@ theorem C13_parked_cancel_unwanted (p : Pool) (w t : Nat) (x : Worker) (hx : p.w
   refine ⟨?_, ?_⟩
   · rw [(tryGrow_results_waits _).1]; unfold finish; simp only [setWorker, hnw, if_true]
   · rw [hnwq]; unfold finish; simp only [setWorker, hnw, if_true]; simp
+
+/-! ## cancelling a task that is in progress: the signal and the cancel set -/
+section Signal
+open Oc.CancelSignal
+
+/-- what the repaired code keeps true: nobody is cancelled, marked or targeted without a request -/
+def InvS (s : S) : Prop :=
+  s.checked = true → (∀ c ∈ s.cancelled, c ∈ s.requested) ∧ (∀ c ∈ s.deferred, c ∈ s.requested) ∧
+    (∀ c, s.target = some c → c ∈ s.requested)
+
+theorem checked_step (s : S) (a : Act) : (step s a).checked = s.checked := by
+  cases a with
+  | cancel c => simp only [step]; split <;> split <;> rfl
+  | switch x =>
+    cases x with
+    | none => rfl
+    | some c => simp only [step]; split <;> (try rfl); split <;> rfl
+  | deliver =>
+    simp only [step]; split
+    · rfl
+    · split
+      · rfl
+      · split
+        · split <;> rfl
+        · rfl
+
+theorem invS_step (s : S) (a : Act) (h : InvS s) : InvS (step s a) := by
+  intro hc
+  have hcs : s.checked = true := by rw [← checked_step s a]; exact hc
+  obtain ⟨h1, h2, h3⟩ := h hcs
+  cases a with
+  | cancel c =>
+    simp only [step, hcs, if_true]
+    split
+    · refine ⟨fun x hx => List.mem_cons_of_mem _ (h1 x hx), ?_, ?_⟩
+      · intro x hx
+        simp only [List.mem_cons] at hx
+        cases hx with
+        | inl e => subst e; exact List.mem_cons_self
+        | inr e => exact List.mem_cons_of_mem _ (h2 x e)
+      · intro x hx; simp only [Option.some.injEq] at hx; subst hx; exact List.mem_cons_self
+    · refine ⟨fun x hx => List.mem_cons_of_mem _ (h1 x hx), ?_, fun x hx => List.mem_cons_of_mem _ (h3 x hx)⟩
+      intro x hx
+      simp only [List.mem_cons] at hx
+      cases hx with
+      | inl e => subst e; exact List.mem_cons_self
+      | inr e => exact List.mem_cons_of_mem _ (h2 x e)
+  | switch x =>
+    cases x with
+    | none => exact ⟨h1, h2, h3⟩
+    | some c =>
+      simp only [step]
+      split
+      · exact ⟨h1, h2, h3⟩
+      · split
+        · rename_i hd
+          refine ⟨?_, fun x hx => h2 x (List.mem_filter.mp hx).1, h3⟩
+          intro x hx
+          simp only [List.mem_cons] at hx
+          cases hx with
+          | inl e => subst e; exact h2 _ hd
+          | inr e => exact h1 x e
+        · exact ⟨h1, h2, h3⟩
+  | deliver =>
+    simp only [step]
+    split
+    · exact ⟨h1, h2, h3⟩
+    · split
+      · exact ⟨h1, h2, h3⟩
+      · rename_i c hcur
+        simp only [hcs, if_true]
+        split
+        · rename_i ht
+          refine ⟨?_, fun x hx => h2 x (List.mem_filter.mp hx).1, by intro x hx; simp at hx⟩
+          intro x hx
+          simp only [List.mem_cons] at hx
+          cases hx with
+          | inl e => subst e; exact h3 _ ht
+          | inr e => exact h1 x e
+        · exact ⟨h1, h2, h3⟩
+
+/-- **Only requested coroutines are ever cancelled.** For every sequence of cancel requests, of
+switches of the thread between coroutines and of (arbitrarily late) signal deliveries: every
+coroutine that ends up cancelled is one a cancel was asked for — the signal never ends the
+coroutine that merely happens to be running when it arrives. -/
+theorem C13_signal_cancels_only_requested (as : List Act) (c : Nat) (hc : c ∈ (run {} as).cancelled) :
+    c ∈ (run {} as).requested := by
+  have gen : ∀ (l : List Act) (s : S), InvS s → InvS (l.foldl step s) := by
+    intro l
+    induction l with
+    | nil => intro s h; exact h
+    | cons a rest ih => intro s h; exact ih _ (invS_step s a h)
+  have hck : ∀ (l : List Act) (s : S), (l.foldl step s).checked = s.checked := by
+    intro l
+    induction l with
+    | nil => intro s; rfl
+    | cons a rest ih => intro s; simp only [List.foldl_cons]; rw [ih, checked_step]
+  have hinv := gen as {} (fun _ => ⟨by simp, by simp, by simp⟩)
+  exact (hinv (by unfold run at *; rw [hck])).1 c hc
+
+/-- A request for a coroutine that is parked, or whose signal arrives too late, is still honoured:
+it stays in the scheduler's cancel set and the coroutine is dropped at its next turn. -/
+theorem C13_missed_signal_still_cancels :
+    (run {} [.switch (some 1), .cancel 1, .switch (some 2), .deliver, .switch (some 1)]).cancelled = [1] ∧
+    (run {} [.switch (some 1), .cancel 1, .switch (some 2), .deliver, .switch (some 1)]).current = none := by decide
+
+/-- Before the repair the handler ended whatever coroutine was current: coroutine 1 is asked to be
+cancelled while it runs, the thread moves on to coroutine 2, the signal arrives — 2 is cancelled,
+1 is not. -/
+theorem C13_old_signal_hits_bystander :
+    (run { checked := false } [.switch (some 1), .cancel 1, .switch (some 2), .deliver]).cancelled = [2] ∧
+    (run { checked := false } [.switch (some 1), .cancel 1, .switch (some 2), .deliver]).requested = [1] := by decide
+
+end Signal
 
 end Oc.Props.C13
